@@ -38,7 +38,32 @@
    [Hnz H]              forall a b, H a b <> zero_chunk   — needed ONLY where stated (C07 and
                         the "fully hashed afterwards" facts): Go treats an all-zero Value as
                         "not computed", so a hash function that can return 32 zero bytes would
-                        be re-invoked on every request. *)
+                        be re-invoked on every request.
+
+   (defined further down, next to their first use; each is unfolded verbatim by a
+    Cxx_defs_* theorem in the Props files)
+   [heap_grow h h']     (sect. 4) heap_ext h h' and every added pair cell has an unset memo:
+                        what NewPairNode / the Setter do.
+   [handles_le hs hs']  (sect. 5) the handle list only grows; type and hook of a handle are fixed.
+   [op_target o]        (sect. 5) the handle an operation is applied to.
+   [hev], [hm_hash H st k], [hm_event H zh st e], [hm_run H zh st evs]   (sect. 6) histories:
+                        [EStep o] = a machine step, [EHash k] = a hash-tree-root request on the
+                        backing of handle k (fuel = the address, which bounds the height);
+                        hm_run = fold_left hm_event.
+   [run_outside H zh st k evs] / [run_inside ...]   (sect. 7) no step / every step of the history
+                        targets a handle whose hook chain contains k.
+   [cell_strip], [memo_eq h1 h2], [hm_rel st1 st2], [steps_only evs]   (sect. 11) heaps equal up
+                        to memos (same hp_next, same cells after erasing memos); states with the
+                        same handles and memo_eq stores; a history without its hash requests.
+   [fresh_unset k0 h t] (sect. 12, internal) every unset pair below t was allocated at or after k0.
+
+   Structure: 1 heap_ext_memo; 2 the h_merkle specification [h_merkle_spec] (one induction on the
+   fuel proving all of: only-memo writes, no allocation, root = root of the abstraction, memo_ok
+   kept, fully hashed afterwards, hash count); 3 its corollaries; 4 allocation/path copy;
+   5 the view machine generically over the node store ([step_local]: which handles a step can
+   rebind; [step_inv]: store invariants — instantiated three times); 6 the heap machine;
+   7 detached copies; 8 path bounds; 9 frozen prefix; 10 examples; 11 memo-insensitivity
+   ([step_rel], generic relational parametricity of the machine); 12 step cost. *)
 From Coq Require Import FMapPositive PArith.
 From Ztyp Require Import Base Bitlen Tree Types View Mut Heap BitlenProofs TreeProofs.
 Open Scope N_scope.
@@ -308,6 +333,34 @@ Proof.
   - intros b Hb. rewrite h_put_other; [exact Hb|]. intros ->. rewrite Hc in Hb. discriminate.
 Qed.
 
+Lemma unset_pair_back h h' b : heap_ext_memo h h' -> (exists c, h_cell h b = Some c) ->
+  unset_pair h' b -> unset_pair h b.
+Proof.
+  intros [A _] [c Hc] (l & r & Hc'). destruct (A _ _ Hc) as (c' & Hc2 & L).
+  rewrite Hc' in Hc2. injection Hc2 as <-.
+  destruct L as [<-|(m & l0 & r0 & -> & E)].
+  - exists l, r. exact Hc.
+  - exists l0, r0. exact Hc.
+Qed.
+
+Lemma reach_back h h' a b : heap_wf h -> heap_ext_memo h h' -> (a < hp_next h)%positive ->
+  reach h' a b -> reach h a b.
+Proof.
+  intros Hwf He Ha Hr. revert Ha.
+  induction Hr as [a|a m l r b Hc Hr IH|a m l r b Hc Hr IH]; intros Ha.
+  - apply reach_refl.
+  - pose proof Hwf as (Hall & _ & Hch). destruct (Hall _ Ha) as [c Hc0].
+    destruct c as [c|m0 l0 r0].
+    + rewrite (ext_memo_leaf _ _ _ _ He Hc0) in Hc. discriminate.
+    + destruct (ext_memo_pair _ _ _ _ _ _ He Hc0) as (m' & Hc' & _). rewrite Hc in Hc'.
+      injection Hc' as -> -> ->. destruct (Hch _ _ _ _ Hc0). eapply reach_left; [eauto|apply IH; lia].
+  - pose proof Hwf as (Hall & _ & Hch). destruct (Hall _ Ha) as [c Hc0].
+    destruct c as [c|m0 l0 r0].
+    + rewrite (ext_memo_leaf _ _ _ _ He Hc0) in Hc. discriminate.
+    + destruct (ext_memo_pair _ _ _ _ _ _ He Hc0) as (m' & Hc' & _). rewrite Hc in Hc'.
+      injection Hc' as -> -> ->. destruct (Hch _ _ _ _ Hc0). eapply reach_right; [eauto|apply IH; lia].
+Qed.
+
 Lemma NoDup_app_intro {A} (l1 l2 : list A) :
   NoDup l1 -> NoDup l2 -> (forall x, In x l1 -> ~ In x l2) -> NoDup (l1 ++ l2).
 Proof.
@@ -347,34 +400,6 @@ Definition merkle_post (h : heap) (a : addr) (r : chunk) (h' : heap) (c : N) : P
   (Hnz H -> memo_closed h -> memoised h' a /\ memo_closed h') /\
   (exists n, wcount h a n /\ c <= N.of_nat n) /\
   (Hnz H -> exists L, written h h' a c L).
-
-Lemma unset_pair_back h h' b : heap_ext_memo h h' -> (exists c, h_cell h b = Some c) ->
-  unset_pair h' b -> unset_pair h b.
-Proof.
-  intros [A _] [c Hc] (l & r & Hc'). destruct (A _ _ Hc) as (c' & Hc2 & L).
-  rewrite Hc' in Hc2. injection Hc2 as <-.
-  destruct L as [<-|(m & l0 & r0 & -> & E)].
-  - exists l, r. exact Hc.
-  - exists l0, r0. exact Hc.
-Qed.
-
-Lemma reach_back h h' a b : heap_wf h -> heap_ext_memo h h' -> (a < hp_next h)%positive ->
-  reach h' a b -> reach h a b.
-Proof.
-  intros Hwf He Ha Hr. revert Ha.
-  induction Hr as [a|a m l r b Hc Hr IH|a m l r b Hc Hr IH]; intros Ha.
-  - apply reach_refl.
-  - pose proof Hwf as (Hall & _ & Hch). destruct (Hall _ Ha) as [c Hc0].
-    destruct c as [c|m0 l0 r0].
-    + rewrite (ext_memo_leaf _ _ _ _ He Hc0) in Hc. discriminate.
-    + destruct (ext_memo_pair _ _ _ _ _ _ He Hc0) as (m' & Hc' & _). rewrite Hc in Hc'.
-      injection Hc' as -> -> ->. destruct (Hch _ _ _ _ Hc0). eapply reach_left; [eauto|apply IH; lia].
-  - pose proof Hwf as (Hall & _ & Hch). destruct (Hall _ Ha) as [c Hc0].
-    destruct c as [c|m0 l0 r0].
-    + rewrite (ext_memo_leaf _ _ _ _ He Hc0) in Hc. discriminate.
-    + destruct (ext_memo_pair _ _ _ _ _ _ He Hc0) as (m' & Hc' & _). rewrite Hc in Hc'.
-      injection Hc' as -> -> ->. destruct (Hch _ _ _ _ Hc0). eapply reach_right; [eauto|apply IH; lia].
-Qed.
 
 Lemma h_merkle_spec fuel : forall h a,
   heap_wf h -> (a < hp_next h)%positive -> (Pos.to_nat a <= fuel)%nat ->
@@ -1014,7 +1039,7 @@ Definition good (s : St) (r : T * St) : Prop := Inv (snd r) /\ R s (snd r) /\ va
 
 Hypothesis R_refl : forall s, R s s.
 Hypothesis R_trans : forall a b c, R a b -> R b c -> R a c.
-Hypothesis valid_mono : forall s s' t, R s s' -> valid s t -> valid s' t.
+Hypothesis valid_mono : forall s s' t, Inv s -> Inv s' -> R s s' -> valid s t -> valid s' t.
 Hypothesis leaf_ok : forall s c, Inv s -> good s (s_leaf s c).
 Hypothesis pair_ok : forall s l r, Inv s -> valid s l -> valid s r -> good s (s_pair s l r).
 Hypothesis set_ok : forall s a g e v r, Inv s -> valid s a -> valid s v ->
@@ -1048,7 +1073,7 @@ Proof.
   pose proof (leaf_ok s (pad32 (le_bytes 8 len)) HI) as (I1 & R1 & V1).
   destruct (s_leaf s (pad32 (le_bytes 8 len))) as [l s1]. simpl in *.
   eapply good_trans; [exact R1|].
-  exact (set_ok _ _ _ _ _ _ I1 (valid_mono _ _ _ R1 HA) V1 Hs).
+  exact (set_ok _ _ _ _ _ _ I1 (valid_mono _ _ _ HI I1 R1 HA) V1 Hs).
 Qed.
 
 (* leaf allocation followed by a continuation on the new store *)
@@ -1155,7 +1180,8 @@ Proof.
   - now apply leaf_ok.
   - destruct (IHl s HI) as (I1 & R1 & V1). destruct (Alloc s l) as [l' s1]. simpl in *.
     destruct (IHr s1 I1) as (I2 & R2 & V2). destruct (Alloc s1 r) as [r' s2]. simpl in *.
-    eapply good_trans; [eapply R_trans; eauto|]. apply pair_ok; eauto.
+    eapply good_trans; [eapply R_trans; [exact R1|exact R2]|].
+    apply pair_ok; [exact I2|exact (valid_mono _ _ _ I1 I2 R2 V1)|exact V2].
 Qed.
 
 (* machine invariant *)
@@ -1427,7 +1453,7 @@ Proof.
             h_inv h_valid heap_grow); try eassumption.
   - apply heap_grow_refl.
   - apply heap_grow_trans.
-  - intros s s' t [[_ Hle] _] Ht. unfold h_valid in *. lia.
+  - intros s s' t _ _ [[_ Hle] _] Ht. unfold h_valid in *. lia.
   - intros s c Hinv. apply h_alloc_good; [exact Hinv|]. intros m l r0 E. discriminate.
   - intros s l r0 Hinv Hl Hr. apply h_alloc_good; [exact Hinv|].
     intros m l0 r1 E. injection E as <- <- <-. auto.
@@ -1943,7 +1969,7 @@ Proof.
   intros Hi. unfold hm_alloc.
   apply (alloc_node_good addr heap h_leaf h_pair (h_inv zh) h_valid heap_grow).
   - apply heap_grow_trans.
-  - intros s s' t [[_ Hle] _] Ht. unfold h_valid in *. lia.
+  - intros s s' t _ _ [[_ Hle] _] Ht. unfold h_valid in *. lia.
   - intros s c Hinv. apply h_alloc_good; [exact Hinv|]. intros m l r0 E. discriminate.
   - intros s l r0 Hinv Hl Hr. apply h_alloc_good; [exact Hinv|].
     intros m l0 r1 E. injection E as <- <- <-. auto.
@@ -2089,4 +2115,904 @@ Proof.
   - split; [exact Hx|].
     assert (Eh : h' = m_store _ _ ex_st1) by (rewrite Est; reflexivity). rewrite Eh.
     eexists _, _, _, _. split; vm_compute; reflexivity.
+Qed.
+
+(* ------------------------------------------------------------------------------------- *)
+(* 11. the machine never reads a memo: steps are insensitive to hash requests             *)
+(* ------------------------------------------------------------------------------------- *)
+
+(* 11a. generic: if the store primitives respect a relation Q between stores (returning the
+   same references and results), so does every machine step. *)
+Section Param.
+Variable T St : Type.
+Variable s_get : St -> T -> N -> res T.
+Variable s_set : St -> T -> N -> bool -> T -> res (T * St).
+Variable s_leaf : St -> chunk -> T * St.
+Variable s_pair : St -> T -> T -> T * St.
+Variable s_chunk : St -> T -> res chunk.
+Variable s_zero : nat -> T.
+Variable s_true : T.
+Variable zh : nat -> chunk.
+
+Local Notation Mlength := (m_length T St s_get s_chunk).
+Local Notation Mcheck := (m_check_index T St s_get s_chunk).
+Local Notation Mgetn := (m_get_node T St s_get).
+Local Notation Msetn := (m_set_node T St s_set).
+Local Notation Msetlen := (m_set_length T St s_set s_leaf).
+Local Notation Mpset := (m_packed_set T St s_get s_set s_leaf s_chunk).
+Local Notation Mbapp := (m_basic_append T St s_get s_set s_leaf s_chunk zh).
+Local Notation Mbpop := (m_basic_pop T St s_get s_set s_leaf s_chunk zh).
+Local Notation Mbitset := (m_bit_set T St s_get s_set s_leaf s_chunk).
+Local Notation Mbitapp := (m_bit_append T St s_get s_set s_leaf s_chunk zh).
+Local Notation Mbitpop := (m_bit_pop T St s_get s_set s_leaf s_chunk).
+Local Notation Mcapp := (m_complex_append T St s_get s_set s_leaf s_chunk).
+Local Notation Mcpop := (m_complex_pop T St s_get s_set s_leaf s_chunk s_zero).
+Local Notation Mslot := (m_slot_set T St s_get s_set s_chunk).
+Local Notation Alloc := (alloc_node T St s_leaf s_pair).
+Local Notation SetB := (set_backing T St s_get s_set s_chunk).
+Local Notation Resolve := (resolve_src T St s_leaf s_pair s_zero s_true zh).
+Local Notation Mutate := (mutate T St s_get s_set s_leaf s_pair s_chunk s_zero s_true zh).
+Local Notation Step := (step T St s_get s_set s_leaf s_pair s_chunk s_zero s_true zh).
+Local Notation Hdl st := (m_handles T St st).
+Local Notation Sto st := (m_store T St st).
+
+Variable Q : St -> St -> Prop.
+
+Definition rel_res (r1 r2 : res (T * St)) : Prop :=
+  match r1, r2 with
+  | OK (t1, s1), OK (t2, s2) => t1 = t2 /\ Q s1 s2
+  | Err, Err => True
+  | Panic, Panic => True
+  | _, _ => False
+  end.
+
+Definition rel_pair (r1 r2 : T * St) : Prop := fst r1 = fst r2 /\ Q (snd r1) (snd r2).
+
+Hypothesis get_q : forall s1 s2 a g, Q s1 s2 -> s_get s1 a g = s_get s2 a g.
+Hypothesis chunk_q : forall s1 s2 a, Q s1 s2 -> s_chunk s1 a = s_chunk s2 a.
+Hypothesis leaf_q : forall s1 s2 c, Q s1 s2 -> rel_pair (s_leaf s1 c) (s_leaf s2 c).
+Hypothesis pair_q : forall s1 s2 l r, Q s1 s2 -> rel_pair (s_pair s1 l r) (s_pair s2 l r).
+Hypothesis set_q : forall s1 s2 a g e v, Q s1 s2 -> rel_res (s_set s1 a g e v) (s_set s2 a g e v).
+
+Lemma rel_bind_pure {A} (x : res A) (k1 k2 : A -> res (T * St)) :
+  (forall a, rel_res (k1 a) (k2 a)) -> rel_res (bind x k1) (bind x k2).
+Proof. intros Hk. destruct x; simpl; auto. Qed.
+
+Lemma rel_bind_rel (x1 x2 : res (T * St)) (k1 k2 : T * St -> res (T * St)) :
+  rel_res x1 x2 -> (forall t s1 s2, Q s1 s2 -> rel_res (k1 (t, s1)) (k2 (t, s2))) ->
+  rel_res (bind x1 k1) (bind x2 k2).
+Proof.
+  intros Hx Hk. destruct x1 as [[t1 s1]| |], x2 as [[t2 s2]| |]; simpl in *; try contradiction; auto.
+  destruct Hx as [-> HQ]. now apply Hk.
+Qed.
+
+Lemma rel_leaf s1 s2 c (k1 k2 : T -> St -> res (T * St)) :
+  Q s1 s2 -> (forall l s1' s2', Q s1' s2' -> rel_res (k1 l s1') (k2 l s2')) ->
+  rel_res (let '(l, s) := s_leaf s1 c in k1 l s) (let '(l, s) := s_leaf s2 c in k2 l s).
+Proof.
+  intros HQ Hk. destruct (leaf_q _ _ c HQ) as [E HQ'].
+  destruct (s_leaf s1 c) as [l1 s1'], (s_leaf s2 c) as [l2 s2']. simpl in *. subst. now apply Hk.
+Qed.
+
+Lemma rel_if (c : bool) (a1 a2 b1 b2 : res (T * St)) :
+  rel_res a1 a2 -> rel_res b1 b2 -> rel_res (if c then a1 else b1) (if c then a2 else b2).
+Proof. destruct c; auto. Qed.
+
+Lemma rel_err : rel_res Err Err.
+Proof. exact I. Qed.
+
+Lemma m_length_q limit s1 s2 a : Q s1 s2 -> Mlength limit s1 a = Mlength limit s2 a.
+Proof.
+  intros HQ. unfold m_length. rewrite (get_q _ _ a 3 HQ). destruct (s_get s2 a 3); simpl; auto.
+  now rewrite (chunk_q _ _ _ HQ).
+Qed.
+
+Lemma m_check_q t s1 s2 a i : Q s1 s2 -> Mcheck t s1 a i = Mcheck t s2 a i.
+Proof. intros HQ. unfold m_check_index. now rewrite (m_length_q _ _ _ _ HQ). Qed.
+
+Lemma m_get_node_q t s1 s2 a i : Q s1 s2 -> Mgetn t s1 a i = Mgetn t s2 a i.
+Proof.
+  intros HQ. unfold m_get_node. destruct (to_gindex64 i (view_depth t)); simpl; auto.
+Qed.
+
+Lemma get_chunk_q {B} t s1 s2 a i (k : chunk -> res B) :
+  Q s1 s2 ->
+  bind (Mgetn t s1 a i) (fun b => bind (s_chunk s1 b) k) =
+  bind (Mgetn t s2 a i) (fun b => bind (s_chunk s2 b) k).
+Proof.
+  intros HQ. rewrite (m_get_node_q _ _ _ _ _ HQ). destruct (Mgetn t s2 a i); simpl; auto.
+  now rewrite (chunk_q _ _ _ HQ).
+Qed.
+
+Lemma m_set_node_rel t s1 s2 a i v : Q s1 s2 -> rel_res (Msetn t s1 a i v) (Msetn t s2 a i v).
+Proof. intros HQ. unfold m_set_node. apply rel_bind_pure. intros g. now apply set_q. Qed.
+
+Lemma m_set_length_rel s1 s2 a len : Q s1 s2 -> rel_res (Msetlen s1 a len) (Msetlen s2 a len).
+Proof.
+  intros HQ. unfold m_set_length. apply rel_leaf; [exact HQ|]. intros l s1' s2' HQ'. now apply set_q.
+Qed.
+
+Lemma set_then_length_rel s1 s2 a g e v len :
+  Q s1 s2 ->
+  rel_res (do x <- s_set s1 a g e v; let '(a1, s) := x in Msetlen s a1 len)
+          (do x <- s_set s2 a g e v; let '(a1, s) := x in Msetlen s a1 len).
+Proof.
+  intros HQ. apply rel_bind_rel; [now apply set_q|]. intros t s1' s2' HQ'.
+  now apply m_set_length_rel.
+Qed.
+
+Lemma m_packed_set_rel t e s1 s2 a i v : Q s1 s2 -> rel_res (Mpset t e s1 a i v) (Mpset t e s2 a i v).
+Proof.
+  intros HQ. unfold m_packed_set. rewrite (get_chunk_q _ _ _ _ _ _ HQ).
+  apply rel_bind_pure. intros b. apply rel_bind_pure. intros c. apply rel_bind_pure. intros c'.
+  apply rel_leaf; [exact HQ|]. intros l s1' s2' HQ'. now apply m_set_node_rel.
+Qed.
+
+Lemma m_basic_append_rel t e limit s1 s2 a v :
+  Q s1 s2 -> rel_res (Mbapp t e limit s1 a v) (Mbapp t e limit s2 a v).
+Proof.
+  intros HQ. unfold m_basic_append. rewrite (m_length_q _ _ _ _ HQ).
+  apply rel_bind_pure. intros ll. apply rel_if; [exact I|].
+  apply rel_bind_pure. intros g.
+  assert (E : (if ll mod per_node e =? 0 then packed_set e (zh 0) 0 v
+               else do b <- Mgetn t s1 a (ll / per_node e); do c <- s_chunk s1 b;
+                    packed_set e c (wrap8 (N.land ll (per_node e - 1))) v) =
+              (if ll mod per_node e =? 0 then packed_set e (zh 0) 0 v
+               else do b <- Mgetn t s2 a (ll / per_node e); do c <- s_chunk s2 b;
+                    packed_set e c (wrap8 (N.land ll (per_node e - 1))) v)).
+  { destruct (_ =? 0); [reflexivity|]. now apply get_chunk_q. }
+  cbv zeta. rewrite E. apply rel_bind_pure. intros c'.
+  apply rel_leaf; [exact HQ|]. intros l s1' s2' HQ'. now apply set_then_length_rel.
+Qed.
+
+Lemma m_basic_pop_rel t e limit s1 s2 a :
+  Q s1 s2 -> rel_res (Mbpop t e limit s1 a) (Mbpop t e limit s2 a).
+Proof.
+  intros HQ. unfold m_basic_pop. rewrite (m_length_q _ _ _ _ HQ).
+  apply rel_bind_pure. intros ll. apply rel_if; [exact I|]. cbv zeta.
+  apply rel_bind_pure. intros g. rewrite (get_chunk_q _ _ _ _ _ _ HQ).
+  apply rel_bind_pure. intros b. apply rel_bind_pure. intros c.
+  apply rel_bind_pure. intros dv. apply rel_bind_pure. intros c'.
+  apply rel_leaf; [exact HQ|]. intros l s1' s2' HQ'. now apply set_then_length_rel.
+Qed.
+
+Lemma m_bit_set_rel t s1 s2 a i b : Q s1 s2 -> rel_res (Mbitset t s1 a i b) (Mbitset t s2 a i b).
+Proof.
+  intros HQ. unfold m_bit_set. rewrite (get_chunk_q _ _ _ _ _ _ HQ).
+  apply rel_bind_pure. intros bn. apply rel_bind_pure. intros c.
+  apply rel_leaf; [exact HQ|]. intros l s1' s2' HQ'. now apply m_set_node_rel.
+Qed.
+
+Lemma m_bit_append_rel t limit s1 s2 a b :
+  Q s1 s2 -> rel_res (Mbitapp t limit s1 a b) (Mbitapp t limit s2 a b).
+Proof.
+  intros HQ. unfold m_bit_append. rewrite (m_length_q _ _ _ _ HQ).
+  apply rel_bind_pure. intros ll. apply rel_if; [exact I|].
+  apply rel_bind_pure. intros g.
+  assert (E : (if N.land ll 255 =? 0 then OK (chunk_set_bit (zh 0) 0 b)
+               else do bn <- Mgetn t s1 a (N.shiftr ll 8); do c <- s_chunk s1 bn;
+                    OK (chunk_set_bit c (wrap8 ll) b)) =
+              (if N.land ll 255 =? 0 then OK (chunk_set_bit (zh 0) 0 b)
+               else do bn <- Mgetn t s2 a (N.shiftr ll 8); do c <- s_chunk s2 bn;
+                    OK (chunk_set_bit c (wrap8 ll) b))).
+  { destruct (_ =? 0); [reflexivity|]. now apply get_chunk_q. }
+  rewrite E. apply rel_bind_pure. intros c'.
+  apply rel_leaf; [exact HQ|]. intros l s1' s2' HQ'. now apply set_then_length_rel.
+Qed.
+
+Lemma m_bit_pop_rel t limit s1 s2 a :
+  Q s1 s2 -> rel_res (Mbitpop t limit s1 a) (Mbitpop t limit s2 a).
+Proof.
+  intros HQ. unfold m_bit_pop. rewrite (m_length_q _ _ _ _ HQ).
+  apply rel_bind_pure. intros ll. apply rel_if; [exact I|].
+  apply rel_bind_pure. intros g. rewrite (get_chunk_q _ _ _ _ _ _ HQ).
+  apply rel_bind_pure. intros bn. apply rel_bind_pure. intros c.
+  apply rel_leaf; [exact HQ|]. intros l s1' s2' HQ'. now apply set_then_length_rel.
+Qed.
+
+Lemma m_complex_append_rel t limit s1 s2 a v :
+  Q s1 s2 -> rel_res (Mcapp t limit s1 a v) (Mcapp t limit s2 a v).
+Proof.
+  intros HQ. unfold m_complex_append. rewrite (m_length_q _ _ _ _ HQ).
+  apply rel_bind_pure. intros ll. apply rel_if; [exact I|].
+  apply rel_bind_pure. intros g. now apply set_then_length_rel.
+Qed.
+
+Lemma m_complex_pop_rel t limit s1 s2 a :
+  Q s1 s2 -> rel_res (Mcpop t limit s1 a) (Mcpop t limit s2 a).
+Proof.
+  intros HQ. unfold m_complex_pop. rewrite (m_length_q _ _ _ _ HQ).
+  apply rel_bind_pure. intros ll. apply rel_if; [exact I|].
+  apply rel_bind_pure. intros g. now apply set_then_length_rel.
+Qed.
+
+Lemma m_slot_set_rel t s1 s2 a i v : Q s1 s2 -> rel_res (Mslot t s1 a i v) (Mslot t s2 a i v).
+Proof.
+  intros HQ. unfold m_slot_set. destruct t; try exact I.
+  - apply rel_if; [exact I|now apply m_set_node_rel].
+  - rewrite (m_check_q _ _ _ _ _ HQ). apply rel_bind_pure. intros _. now apply m_set_node_rel.
+  - apply rel_if; [exact I|now apply m_set_node_rel].
+Qed.
+
+Lemma alloc_node_rel n : forall s1 s2, Q s1 s2 -> rel_pair (Alloc s1 n) (Alloc s2 n).
+Proof.
+  induction n as [c|l IHl r IHr]; intros s1 s2 HQ; simpl.
+  - now apply leaf_q.
+  - destruct (IHl _ _ HQ) as [El Ql].
+    destruct (Alloc s1 l) as [l1 s1'], (Alloc s2 l) as [l2 s2']. simpl in *. subst l2.
+    destruct (IHr _ _ Ql) as [Er Qr].
+    destruct (Alloc s1' r) as [r1 s1''], (Alloc s2' r) as [r2 s2'']. simpl in *. subst r2.
+    now apply pair_q.
+Qed.
+
+Definition srel (st1 st2 : mstate T St) : Prop := Hdl st1 = Hdl st2 /\ Q (Sto st1) (Sto st2).
+
+Lemma rel_pair_res p1 p2 : rel_pair p1 p2 -> rel_res (OK p1) (OK p2).
+Proof. destruct p1, p2. simpl. auto. Qed.
+
+Lemma resolve_src_rel st1 st2 x want :
+  srel st1 st2 -> rel_res (Resolve st1 x want) (Resolve st2 x want).
+Proof.
+  intros [Eh HQ]. unfold resolve_src.
+  assert (Halloc : forall t v,
+    rel_res (do n <- from_val zh t v; OK (Alloc (Sto st1) n)) (do n <- from_val zh t v; OK (Alloc (Sto st2) n))).
+  { intros t v. apply rel_bind_pure. intros n. apply rel_pair_res. now apply alloc_node_rel. }
+  destruct x as [t v|h|].
+  - destruct t; try apply Halloc. destruct v; try apply Halloc. simpl. auto.
+  - unfold get_handle. rewrite Eh. destruct (nth_error (Hdl st2) h); simpl; auto.
+  - apply rel_pair_res. now apply leaf_q.
+Qed.
+
+Lemma resolve_then_rel st1 st2 v want (k1 k2 : T -> St -> res (T * St)) :
+  srel st1 st2 -> (forall b s1 s2, Q s1 s2 -> rel_res (k1 b s1) (k2 b s2)) ->
+  rel_res (do r0 <- Resolve st1 v want; let '(b, s) := r0 in k1 b s)
+          (do r0 <- Resolve st2 v want; let '(b, s) := r0 in k2 b s).
+Proof.
+  intros HS Hk. apply rel_bind_rel; [now apply resolve_src_rel|]. intros t s1 s2 HQ. now apply Hk.
+Qed.
+
+Lemma mutate_rel st1 st2 x o : srel st1 st2 -> rel_res (Mutate st1 x o) (Mutate st2 x o).
+Proof.
+  intros HS. pose proof HS as [Eh HQ]. unfold mutate. cbv zeta.
+  destruct o as [h i|h|h|h i v|h v|h|h sel v]; try (destruct (h_ty T x); exact I).
+  - destruct (h_ty T x); try exact I.
+    + apply rel_if; [exact I|]. apply rel_bind_pure. intros b. now apply m_bit_set_rel.
+    + rewrite (m_check_q _ _ _ _ _ HQ). apply rel_bind_pure. intros _. apply rel_bind_pure. intros b.
+      now apply m_bit_set_rel.
+    + apply rel_if.
+      * apply rel_if; [exact I|]. apply rel_bind_pure. intros lv. now apply m_packed_set_rel.
+      * apply resolve_then_rel; [exact HS|]. intros b s1 s2 HQ'. now apply m_slot_set_rel.
+    + apply rel_if.
+      * rewrite (m_check_q _ _ _ _ _ HQ). apply rel_bind_pure. intros _. apply rel_bind_pure. intros lv.
+        now apply m_packed_set_rel.
+      * apply resolve_then_rel; [exact HS|]. intros b s1 s2 HQ'. now apply m_slot_set_rel.
+    + apply resolve_then_rel; [exact HS|]. intros b s1 s2 HQ'. now apply m_slot_set_rel.
+  - destruct (h_ty T x); try exact I.
+    + apply rel_bind_pure. intros b. now apply m_bit_append_rel.
+    + apply rel_if.
+      * apply rel_bind_pure. intros lv. now apply m_basic_append_rel.
+      * apply resolve_then_rel; [exact HS|]. intros b s1 s2 HQ'. now apply m_complex_append_rel.
+  - destruct (h_ty T x); try exact I.
+    + now apply m_bit_pop_rel.
+    + apply rel_if; [now apply m_basic_pop_rel|now apply m_complex_pop_rel].
+  - destruct (h_ty T x); try exact I. apply rel_if; [exact I|].
+    assert (Hk : forall b s1 s2, Q s1 s2 ->
+              rel_res (let '(sl, s) := s_leaf s1 (pad32 [byte_of_N sel]) in OK (s_pair s b sl))
+                      (let '(sl, s) := s_leaf s2 (pad32 [byte_of_N sel]) in OK (s_pair s b sl))).
+    { intros b s1 s2 HQ'. apply (rel_leaf s1 s2 _ (fun sl s => OK (s_pair s b sl)) (fun sl s => OK (s_pair s b sl)) HQ').
+      intros l s1' s2' HQ''. apply rel_pair_res. now apply pair_q. }
+    destruct v as [t0 v0|h0|].
+    + apply resolve_then_rel; [exact HS|exact Hk].
+    + apply resolve_then_rel; [exact HS|exact Hk].
+    + apply (rel_bind_rel _ _ (fun r0 => let '(c, s) := r0 in let '(sl, s2) := s_leaf s (pad32 [byte_of_N sel]) in OK (s_pair s2 c sl))
+                              (fun r0 => let '(c, s) := r0 in let '(sl, s2) := s_leaf s (pad32 [byte_of_N sel]) in OK (s_pair s2 c sl))).
+      * apply rel_if; [exact I|now apply resolve_src_rel].
+      * intros t s1 s2 HQ'. now apply Hk.
+Qed.
+
+Lemma put_back_rel st1 st2 h b s1 s2 :
+  srel st1 st2 -> Q s1 s2 -> srel (put_back T St st1 h b s1) (put_back T St st2 h b s2).
+Proof.
+  intros [Eh HQ] HQ'. unfold put_back, srel. rewrite Eh.
+  destruct (nth_error (Hdl st2) h); simpl; auto.
+Qed.
+
+Lemma set_backing_rel fuel : forall st1 st2 h b s1 s2,
+  srel st1 st2 -> Q s1 s2 ->
+  srel (fst (SetB fuel st1 h b s1)) (fst (SetB fuel st2 h b s2)) /\
+  snd (SetB fuel st1 h b s1) = snd (SetB fuel st2 h b s2).
+Proof.
+  induction fuel as [|f IH]; intros st1 st2 h b s1 s2 HS HQ.
+  - simpl. split; [now apply put_back_rel|reflexivity].
+  - cbn [set_backing].
+    pose proof (put_back_rel _ _ h b _ _ HS HQ) as HS1.
+    set (p1 := put_back T St st1 h b s1) in *. set (p2 := put_back T St st2 h b s2) in *.
+    pose proof HS1 as [Eh1 HQ1]. rewrite Eh1.
+    destruct (nth_error (Hdl p2) h) as [x|]; [|simpl; auto].
+    destruct (h_hook T x) as [[p i]|]; [|simpl; auto].
+    destruct (nth_error (Hdl p2) p) as [px|]; [|simpl; auto].
+    pose proof (m_slot_set_rel (h_ty T px) _ _ (h_back T px) i b HQ1) as Hm.
+    destruct (Mslot (h_ty T px) (Sto p1) (h_back T px) i b) as [[pb1 s1']| |],
+             (Mslot (h_ty T px) (Sto p2) (h_back T px) i b) as [[pb2 s2']| |];
+      simpl in Hm; try contradiction; simpl; auto.
+    destruct Hm as [-> HQ']. now apply IH.
+Qed.
+
+Theorem step_rel st1 st2 o :
+  srel st1 st2 -> srel (fst (Step st1 o)) (fst (Step st2 o)) /\ snd (Step st1 o) = snd (Step st2 o).
+Proof.
+  intros HS. pose proof HS as [Eh HQ]. unfold step.
+  assert (Hmut : forall h x,
+     let f := fun st => match Mutate st x o with
+        | OK (b, s') =>
+          let '(st1, r) := SetB (hook_fuel T St st) st h b s' in
+          (st1, match r with OK _ => OK MUnit | Err => Err | Panic => Panic end)
+        | Err => (st, Err)
+        | Panic => (st, Panic)
+        end in
+     srel (fst (f st1)) (fst (f st2)) /\ snd (f st1) = snd (f st2)).
+  { intros h x. cbv beta zeta. pose proof (mutate_rel _ _ x o HS) as Hm.
+    destruct (Mutate st1 x o) as [[b1 s1']| |]; destruct (Mutate st2 x o) as [[b2 s2']| |];
+      simpl in Hm; try contradiction;
+      [|split; [exact HS|reflexivity]|split; [exact HS|reflexivity]].
+    destruct Hm as [-> HQ'].
+    assert (Ef : hook_fuel T St st1 = hook_fuel T St st2) by (unfold hook_fuel; now rewrite Eh).
+    rewrite Ef. destruct (set_backing_rel (hook_fuel T St st2) _ _ h b2 _ _ HS HQ') as [A B].
+    destruct (SetB (hook_fuel T St st2) st1 h b2 s1') as [r1 o1],
+             (SetB (hook_fuel T St st2) st2 h b2 s2') as [r2 o2]. simpl in *. subst o2. auto. }
+  unfold get_handle. rewrite Eh.
+  destruct o as [h i|h|h|h i v|h v|h|h sel v].
+  - destruct (nth_error (Hdl st2) h) as [x|]; [|simpl; auto].
+    rewrite (m_check_q _ _ _ _ _ HQ), (m_get_node_q _ _ _ _ _ HQ).
+    match goal with |- context [match ?e with Some _ => _ | None => (st1, Err) end] =>
+      destruct e as [e0|] end; [|simpl; auto].
+    destruct (Mgetn (h_ty T x) (Sto st2) (h_back T x) i); simpl; auto.
+    unfold srel. simpl. rewrite Eh. auto.
+  - destruct (nth_error (Hdl st2) h) as [x|]; [|simpl; auto].
+    destruct (h_ty T x); simpl; auto.
+    rewrite (get_q _ _ (h_back T x) 3 HQ).
+    destruct (s_get (Sto st2) (h_back T x) 3) as [r| |]; simpl; auto.
+    rewrite (chunk_q _ _ r HQ). destruct (s_chunk (Sto st2) r) as [s| |]; simpl; auto.
+    destruct (negb _); simpl; auto. destruct (_ <=? _); simpl; auto.
+    rewrite (get_q _ _ (h_back T x) 2 HQ).
+    destruct (s_get (Sto st2) (h_back T x) 2) as [c| |]; simpl; auto.
+    destruct (union_opt none opts _); simpl; auto. unfold srel. simpl. rewrite Eh. auto.
+  - destruct (nth_error (Hdl st2) h) as [x|]; [|simpl; auto].
+    simpl. unfold srel. simpl. rewrite Eh. auto.
+  - destruct (nth_error (Hdl st2) h) as [x|]; [|simpl; auto]. apply (Hmut h x).
+  - destruct (nth_error (Hdl st2) h) as [x|]; [|simpl; auto]. apply (Hmut h x).
+  - destruct (nth_error (Hdl st2) h) as [x|]; [|simpl; auto]. apply (Hmut h x).
+  - destruct (nth_error (Hdl st2) h) as [x|]; [|simpl; auto]. apply (Hmut h x).
+Qed.
+
+End Param.
+
+(* 11b. the heap instance: two heaps that agree up to memos *)
+Definition cell_strip (c : cell) : cell :=
+  match c with CLeaf x => CLeaf x | CPair _ l r => CPair zero_chunk l r end.
+
+(* [memo_eq h1 h2]: same hp_next, and at every address the same cell up to the memo *)
+Definition memo_eq (h1 h2 : heap) : Prop :=
+  hp_next h1 = hp_next h2 /\
+  forall a, option_map cell_strip (h_cell h1 a) = option_map cell_strip (h_cell h2 a).
+
+Lemma memo_eq_refl h : memo_eq h h.
+Proof. split; auto. Qed.
+
+Lemma memo_eq_sym h1 h2 : memo_eq h1 h2 -> memo_eq h2 h1.
+Proof. intros [A B]. split; [now symmetry|]. intros a. now symmetry. Qed.
+
+Lemma memo_eq_trans h1 h2 h3 : memo_eq h1 h2 -> memo_eq h2 h3 -> memo_eq h1 h3.
+Proof. intros [A1 B1] [A2 B2]. split; [congruence|]. intros a. now rewrite B1. Qed.
+
+Lemma memo_eq_cell h1 h2 a :
+  memo_eq h1 h2 ->
+  match h_cell h1 a, h_cell h2 a with
+  | None, None => True
+  | Some (CLeaf c1), Some (CLeaf c2) => c1 = c2
+  | Some (CPair _ l1 r1), Some (CPair _ l2 r2) => l1 = l2 /\ r1 = r2
+  | _, _ => False
+  end.
+Proof.
+  intros [_ B]. specialize (B a).
+  destruct (h_cell h1 a) as [[c1|m1 l1 r1]|], (h_cell h2 a) as [[c2|m2 l2 r2]|]; simpl in B;
+    try discriminate; auto.
+  - now injection B.
+  - injection B as -> ->. auto.
+Qed.
+
+Lemma ext_memo_memo_eq h h' : heap_ext_memo h h' -> heap_same_dom h h' -> memo_eq h h'.
+Proof.
+  intros [A _] [Hn Hd]. split; [now symmetry|]. intros a.
+  destruct (h_cell h a) as [c|] eqn:Hc.
+  - destruct (A _ _ Hc) as (c' & -> & [->|(m & l & r & -> & ->)]); reflexivity.
+  - now rewrite (Hd _ Hc).
+Qed.
+
+Lemma habs_memo_eq h1 h2 a n : memo_eq h1 h2 -> habs h1 a n -> habs h2 a n.
+Proof.
+  intros HQ. induction 1 as [a c Hc|a memo l r x y Hc Hl IHl Hr IHr];
+    pose proof (memo_eq_cell _ _ a HQ) as Hm; rewrite Hc in Hm.
+  - destruct (h_cell h2 a) as [[c2|m2 l2 r2]|] eqn:Hc2; try contradiction. subst. now apply habs_leaf.
+  - destruct (h_cell h2 a) as [[c2|m2 l2 r2]|] eqn:Hc2; try contradiction. destruct Hm as [<- <-].
+    eapply habs_pair; eauto.
+Qed.
+
+Lemma h_get_path_memo_eq h1 h2 p : forall a, memo_eq h1 h2 -> h_get_path h1 a p = h_get_path h2 a p.
+Proof.
+  induction p as [|b p IH]; intros a HQ; simpl; [reflexivity|].
+  pose proof (memo_eq_cell _ _ a HQ) as Hm.
+  destruct (h_cell h1 a) as [[c1|m1 l1 r1]|], (h_cell h2 a) as [[c2|m2 l2 r2]|]; try contradiction; auto.
+  destruct Hm as [<- <-]. now apply IH.
+Qed.
+
+Lemma h_chunk_memo_eq h1 h2 a : memo_eq h1 h2 -> h_chunk h1 a = h_chunk h2 a.
+Proof.
+  intros HQ. unfold h_chunk. pose proof (memo_eq_cell _ _ a HQ) as Hm.
+  destruct (h_cell h1 a) as [[c1|m1 l1 r1]|], (h_cell h2 a) as [[c2|m2 l2 r2]|]; try contradiction; auto.
+  now subst.
+Qed.
+
+Lemma h_alloc_memo_eq h1 h2 c :
+  memo_eq h1 h2 -> fst (h_alloc h1 c) = fst (h_alloc h2 c) /\ memo_eq (snd (h_alloc h1 c)) (snd (h_alloc h2 c)).
+Proof.
+  intros [A B]. split; [exact A|]. split; [rewrite !h_alloc_next; now rewrite A|].
+  intros a. destruct (Pos.eq_dec a (hp_next h1)) as [->|Hne].
+  - rewrite h_alloc_new. rewrite A. now rewrite h_alloc_new.
+  - rewrite h_alloc_old by exact Hne. rewrite h_alloc_old by (now rewrite <- A). apply B.
+Qed.
+
+Lemma h_step_children_memo_eq zh h1 h2 a k e :
+  memo_eq h1 h2 -> h_step_children zh h1 a k e = h_step_children zh h2 a k e.
+Proof.
+  intros HQ. unfold h_step_children. pose proof (memo_eq_cell _ _ a HQ) as Hm.
+  destruct (h_cell h1 a) as [[c1|m1 l1 r1]|], (h_cell h2 a) as [[c2|m2 l2 r2]|]; try contradiction; auto.
+  - now subst.
+  - now destruct Hm as [<- <-].
+Qed.
+
+Lemma h_set_path_memo_eq zh p : forall h1 h2 a e v,
+  memo_eq h1 h2 -> rel_res addr heap memo_eq (h_set_path zh h1 a p e v) (h_set_path zh h2 a p e v).
+Proof.
+  induction p as [|b p IH]; intros h1 h2 a e v HQ.
+  - simpl. auto.
+  - rewrite !h_set_path_cons. rewrite (h_step_children_memo_eq zh _ _ a (length p) e HQ).
+    destruct (h_step_children zh h2 a (length p) e) as [[l r]| |]; cbn [bind]; try exact I.
+    destruct b.
+    + specialize (IH h1 h2 r e v HQ).
+      destruct (h_set_path zh h1 r p e v) as [[r1 h1']| |], (h_set_path zh h2 r p e v) as [[r2 h2']| |];
+        simpl in IH; try contradiction; cbn [bind]; try exact I.
+      destruct IH as [-> HQ']. rewrite !h_pair_eq.
+      destruct (h_alloc_memo_eq _ _ (CPair zero_chunk l r2) HQ') as [E1 E2]. simpl. split; [exact E1|exact E2].
+    + specialize (IH h1 h2 l e v HQ).
+      destruct (h_set_path zh h1 l p e v) as [[l1 h1']| |], (h_set_path zh h2 l p e v) as [[l2 h2']| |];
+        simpl in IH; try contradiction; cbn [bind]; try exact I.
+      destruct IH as [-> HQ']. rewrite !h_pair_eq.
+      destruct (h_alloc_memo_eq _ _ (CPair zero_chunk l2 r) HQ') as [E1 E2]. simpl. split; [exact E1|exact E2].
+Qed.
+
+Section Insensitive.
+Variable H : chunk -> chunk -> chunk.
+Variable zh : nat -> chunk.
+
+Definition hm_rel (st1 st2 : hm_state) : Prop :=
+  m_handles _ _ st1 = m_handles _ _ st2 /\ memo_eq (m_store _ _ st1) (m_store _ _ st2).
+
+(* a step on two states that differ only in memos: same output, same handles, and the new
+   heaps again differ only in memos (in particular the same addresses were allocated) *)
+Lemma hm_step_memo_eq st1 st2 o :
+  hm_rel st1 st2 ->
+  hm_rel (fst (hm_step zh st1 o)) (fst (hm_step zh st2 o)) /\
+  snd (hm_step zh st1 o) = snd (hm_step zh st2 o).
+Proof.
+  intros HS. unfold hm_step.
+  apply (step_rel addr heap h_getter (h_setter zh) h_leaf h_pair h_chunk zero_addr true_addr zh memo_eq).
+  - intros s1 s2 a g HQ. unfold h_getter. now apply h_get_path_memo_eq.
+  - intros s1 s2 a HQ. now apply h_chunk_memo_eq.
+  - intros s1 s2 c HQ. unfold h_leaf. now apply h_alloc_memo_eq.
+  - intros s1 s2 l r HQ. unfold h_pair. now apply h_alloc_memo_eq.
+  - intros s1 s2 a g e v HQ. unfold h_setter. now apply h_set_path_memo_eq.
+  - exact HS.
+Qed.
+
+Lemma hm_event_memo_eq st1 st2 e :
+  hm_inv zh st1 -> hm_inv zh st2 -> hm_rel st1 st2 ->
+  hm_rel (hm_event H zh st1 e) (hm_event H zh st2 e).
+Proof.
+  intros Hi1 Hi2 HS. destruct e as [o|k]; simpl.
+  - apply hm_step_memo_eq. exact HS.
+  - destruct HS as [Eh HQ].
+    assert (Hh : forall st, hm_inv zh st ->
+              m_handles _ _ (match hm_hash H st k with OK (_, st', _) => st' | _ => st end) = m_handles _ _ st /\
+              memo_eq (m_store _ _ st) (m_store _ _ (match hm_hash H st k with OK (_, st', _) => st' | _ => st end))).
+    { intros st Hi. destruct (nth_error (m_handles _ _ st) k) as [x|] eqn:Hx.
+      - destruct (hm_hash_spec H zh st k x Hi Hx) as (r & h' & c & E & Em & _). rewrite E. simpl.
+        split; [reflexivity|].
+        destruct (h_merkle_heap H _ _ _ _ _ _ (proj1 Hi) (proj2 (proj2 (proj2 Hi)) _ _ Hx) (le_n _) Em)
+          as (He & Hd & _). now apply ext_memo_memo_eq.
+      - unfold hm_hash. rewrite Hx. split; [reflexivity|apply memo_eq_refl]. }
+    destruct (Hh _ Hi1) as [A1 B1]. destruct (Hh _ Hi2) as [A2 B2].
+    split; [etransitivity; [exact A1|]; etransitivity; [exact Eh|]; symmetry; exact A2|].
+    eapply memo_eq_trans; [apply memo_eq_sym; exact B1|]. eapply memo_eq_trans; [exact HQ|exact B2].
+Qed.
+
+(* erase the hash requests of a history *)
+Definition steps_only (evs : list hev) : list hev :=
+  filter (fun e => match e with EStep _ => true | EHash _ => false end) evs.
+
+Lemma hm_event_hash_rel st k : hm_inv zh st -> hm_rel (hm_event H zh st (EHash k)) st.
+Proof.
+  intros Hi. simpl. destruct (nth_error (m_handles _ _ st) k) as [x|] eqn:Hx.
+  - destruct (hm_hash_spec H zh st k x Hi Hx) as (r & h' & c & E & Em & _). rewrite E.
+    split; [reflexivity|]. simpl. apply memo_eq_sym.
+    destruct (h_merkle_heap H _ _ _ _ _ _ (proj1 Hi) (proj2 (proj2 (proj2 Hi)) _ _ Hx) (le_n _) Em)
+      as (He & Hd & _). now apply ext_memo_memo_eq.
+  - unfold hm_hash. rewrite Hx. split; [reflexivity|apply memo_eq_refl].
+Qed.
+
+(* C06 at machine level: replaying a history with its hash requests, or with all of them
+   erased, gives the same handles (same backing addresses) and heaps equal up to memos *)
+Lemma hm_run_steps_only evs : forall st1 st2,
+  hm_inv zh st1 -> hm_inv zh st2 -> hm_rel st1 st2 ->
+  hm_rel (hm_run H zh st1 evs) (hm_run H zh st2 (steps_only evs)).
+Proof.
+  induction evs as [|e evs IH]; intros st1 st2 Hi1 Hi2 HS; simpl; [exact HS|].
+  destruct e as [o|k]; simpl.
+  - apply IH.
+    + apply (hm_step_inv' zh st1 o Hi1).
+    + apply (hm_step_inv' zh st2 o Hi2).
+    + apply hm_step_memo_eq. exact HS.
+  - apply IH; [|exact Hi2|].
+    + destruct (hm_event_inv H zh st1 (EHash k) Hi1) as (Hi' & _). exact Hi'.
+    + destruct (hm_event_hash_rel st1 k Hi1) as [A B]. destruct HS as [Eh HQ].
+      split; [simpl in *; congruence|]. eapply memo_eq_trans; [exact B|exact HQ].
+Qed.
+
+(* hence the root of every handle at the end is the same, whether or not (and wherever)
+   roots were requested on the way *)
+Lemma hm_run_request_independent st evs k r1 st1 c1 r2 st2 c2 :
+  hm_inv zh st -> memo_ok H (m_store _ _ st) ->
+  hm_hash H (hm_run H zh st evs) k = OK (r1, st1, c1) ->
+  hm_hash H (hm_run H zh st (steps_only evs)) k = OK (r2, st2, c2) ->
+  r1 = r2.
+Proof.
+  intros Hi Hok E1 E2.
+  destruct (hm_run_steps_only evs st st Hi Hi (conj eq_refl (memo_eq_refl _))) as [Eh HQ].
+  destruct (hm_run_inv H zh evs st Hi) as (Hi1 & _ & Hok1 & _).
+  destruct (hm_run_inv H zh (steps_only evs) st Hi) as (Hi2 & _ & Hok2 & _).
+  unfold hm_hash in E1, E2. rewrite Eh in E1.
+  destruct (nth_error (m_handles _ _ (hm_run H zh st (steps_only evs))) k) as [x|] eqn:Hx; [|discriminate].
+  destruct (h_merkle H _ (m_store _ _ (hm_run H zh st evs)) _) as [[[ra ha] ca]| |] eqn:Ea; try discriminate.
+  destruct (h_merkle H _ (m_store _ _ (hm_run H zh st (steps_only evs))) _) as [[[rb hb] cb]| |] eqn:Eb;
+    try discriminate.
+  injection E1 as <- _ _. injection E2 as <- _ _.
+  destruct (habs_total _ _ (proj1 Hi2) (proj2 (proj2 (proj2 Hi2)) _ _ Hx)) as [n Hn].
+  eapply (h_merkle_request_independent H); [apply Hi1|apply Hi2|now apply Hok1|now apply Hok2| |exact Hn| | |exact Ea|exact Eb];
+    [eapply habs_memo_eq; [apply memo_eq_sym; exact HQ|exact Hn]|lia|lia].
+Qed.
+
+End Insensitive.
+
+Section Commute.
+Variable H : chunk -> chunk -> chunk.
+Variable zh : nat -> chunk.
+
+Lemma hm_rel_sym st1 st2 : hm_rel st1 st2 -> hm_rel st2 st1.
+Proof. intros [A B]. split; [now symmetry|now apply memo_eq_sym]. Qed.
+
+Lemma hm_rel_trans st1 st2 st3 : hm_rel st1 st2 -> hm_rel st2 st3 -> hm_rel st1 st3.
+Proof. intros [A1 B1] [A2 B2]. split; [congruence|eapply memo_eq_trans; eauto]. Qed.
+
+(* a hash request (of any fork, on any handle) and a step (of any fork) commute: the step
+   returns the same output and allocates the same addresses whether the request came before
+   or after it, and the two resulting states differ at most in memos *)
+Lemma hm_hash_step_commute st k o :
+  hm_inv zh st ->
+  hm_rel (hm_event H zh (hm_event H zh st (EHash k)) (EStep o))
+         (hm_event H zh (hm_event H zh st (EStep o)) (EHash k)) /\
+  snd (hm_step zh (hm_event H zh st (EHash k)) o) = snd (hm_step zh st o).
+Proof.
+  intros Hi. pose proof (hm_event_hash_rel H zh st k Hi) as R1.
+  destruct (hm_step_memo_eq zh _ _ o R1) as [R2 E2].
+  pose proof (hm_event_hash_rel H zh _ k (proj1 (hm_step_inv' zh st o Hi))) as R3.
+  split; [|exact E2]. eapply hm_rel_trans; [exact R2|]. apply hm_rel_sym. exact R3.
+Qed.
+
+End Commute.
+
+(* the example history, with and without its hash requests: same final handles, same roots *)
+Example ex_steps_only :
+  steps_only ex_evs =
+    [EStep (OGet 0 0); EStep (OSet 1 5 (SLit (TUint 8) (VUint 7))); EStep (OCopy 0);
+     EStep (OSet 2 1 (SLit (TUint 8) (VUint 9)))] /\
+  m_handles _ _ (hm_run yH yzh ex_st0 (steps_only ex_evs)) = m_handles _ _ (hm_run yH yzh ex_st0 ex_evs) /\
+  (forall k, (k < 3)%nat ->
+     match hm_hash yH (hm_run yH yzh ex_st0 ex_evs) k,
+           hm_hash yH (hm_run yH yzh ex_st0 (steps_only ex_evs)) k with
+     | OK (r1, _, _), OK (r2, _, _) => r1 = r2
+     | _, _ => False
+     end).
+Proof.
+  split; [reflexivity|]. split; [vm_compute; reflexivity|].
+  intros k Hk. destruct k as [|[|[|k]]]; [vm_compute; reflexivity..|lia].
+Qed.
+
+(* ------------------------------------------------------------------------------------- *)
+(* 12. C07 at machine level: after a step from a fully hashed state, a hash request costs  *)
+(*     at most one hash per cell the step allocated; a Setter allocates one pair per level *)
+(* ------------------------------------------------------------------------------------- *)
+
+Lemma memoised_reach_set h a b : memoised h a -> reach h a b -> unset_pair h b -> False.
+Proof.
+  intros Hm Hr. revert Hm. induction Hr as [a|a m l r b Hc Hr IH|a m l r b Hc Hr IH]; intros Hm Hu.
+  - destruct Hu as (l & r & Hc). inversion Hm as [a0 c Hc0|a0 m l0 r0 Hc0 Hz _ _]; subst; rewrite Hc in Hc0.
+    + discriminate.
+    + injection Hc0 as <- _ _. now apply Hz.
+  - inversion Hm as [a0 c Hc0|a0 m0 l0 r0 Hc0 Hz Hl0 Hr0]; subst; rewrite Hc in Hc0; [discriminate|].
+    injection Hc0 as _ <- <-. now apply IH.
+  - inversion Hm as [a0 c Hc0|a0 m0 l0 r0 Hc0 Hz Hl0 Hr0]; subst; rewrite Hc in Hc0; [discriminate|].
+    injection Hc0 as _ <- <-. now apply IH.
+Qed.
+
+Lemma h_get_path_reach h p : forall a t, h_get_path h a p = OK t -> reach h a t.
+Proof.
+  induction p as [|d p IH]; intros a t Hg; simpl in Hg.
+  - injection Hg as <-. apply reach_refl.
+  - destruct (h_cell h a) as [[c|memo l r]|] eqn:Hc; try discriminate.
+    destruct d; [eapply reach_right|eapply reach_left]; eauto.
+Qed.
+
+(* the Setter allocates exactly one cell (a pair) per level of the path *)
+Lemma h_set_path_allocates zh p : forall h a e v a' h',
+  h_set_path zh h a p e v = OK (a', h') ->
+  Pos.to_nat (hp_next h') = (Pos.to_nat (hp_next h) + length p)%nat.
+Proof.
+  induction p as [|b p IH]; intros h a e v a' h' Hs.
+  - simpl in Hs. injection Hs as <- <-. simpl. lia.
+  - rewrite h_set_path_cons in Hs.
+    destruct (h_step_children zh h a (length p) e) as [[l r]| |]; cbn [bind] in Hs; try discriminate.
+    destruct b.
+    + destruct (h_set_path zh h r p e v) as [[r' h1]| |] eqn:Er; cbn [bind] in Hs; try discriminate.
+      rewrite h_pair_eq in Hs. injection Hs as <- <-. cbn [hp_next h_alloc snd]. rewrite Pos2Nat.inj_succ.
+      rewrite (IH _ _ _ _ _ _ Er). simpl. lia.
+    + destruct (h_set_path zh h l p e v) as [[l' h1]| |] eqn:El; cbn [bind] in Hs; try discriminate.
+      rewrite h_pair_eq in Hs. injection Hs as <- <-. cbn [hp_next h_alloc snd]. rewrite Pos2Nat.inj_succ.
+      rewrite (IH _ _ _ _ _ _ El). simpl. lia.
+Qed.
+
+Section StepCost.
+Variable zh : nat -> chunk.
+Variable k0 : addr.
+
+(* every unset pair below t is a cell allocated at or after k0 *)
+Definition fresh_unset (h : heap) (t : addr) : Prop :=
+  (t < hp_next h)%positive /\ forall b, reach h t b -> unset_pair h b -> (k0 <= b)%positive.
+Definition h_inv_k (h : heap) : Prop :=
+  h_inv zh h /\ (k0 <= hp_next h)%positive /\ h_cell h true_addr = Some (CLeaf true_chunk).
+
+Lemma fresh_mono s s' t : h_inv_k s -> heap_grow s s' -> fresh_unset s t -> fresh_unset s' t.
+Proof.
+  intros ((Hwf & _) & _) [He _] [Ht Hf]. pose proof (heap_ext_ext_memo _ _ He) as Hem. split.
+  - destruct He as [_ Hle]. lia.
+  - intros b Hr Hu. pose proof (reach_back _ _ _ _ Hwf Hem Ht Hr) as Hr0.
+    apply Hf; [exact Hr0|]. eapply unset_pair_back; [exact Hem| |exact Hu].
+    pose proof Hwf as (Hall & _). apply Hall. pose proof (reach_le _ _ _ Hwf Hr0). lia.
+Qed.
+
+Lemma fresh_leaf h a c : h_cell h a = Some (CLeaf c) -> (a < hp_next h)%positive -> fresh_unset h a.
+Proof.
+  intros Hc Ha. split; [exact Ha|]. intros b Hr Hu.
+  inversion Hr as [a0|a0 m l r b0 Hc0 _|a0 m l r b0 Hc0 _]; subst.
+  - destruct Hu as (l & r & Hc'). rewrite Hc in Hc'. discriminate.
+  - rewrite Hc in Hc0. discriminate.
+  - rewrite Hc in Hc0. discriminate.
+Qed.
+
+Lemma fresh_child h a m l r :
+  heap_wf h -> fresh_unset h a -> h_cell h a = Some (CPair m l r) -> fresh_unset h l /\ fresh_unset h r.
+Proof.
+  intros Hwf [Ha Hf] Hc. pose proof Hwf as (_ & _ & Hch). destruct (Hch _ _ _ _ Hc) as [Hl Hr].
+  split; (split; [lia|]); intros b Hb Hu; apply Hf; auto; [eapply reach_left|eapply reach_right]; eauto.
+Qed.
+
+Lemma leaf_alloc_k s c : h_inv_k s -> good addr heap h_inv_k fresh_unset heap_grow s (h_leaf s c).
+Proof.
+  intros (Hi & Hk & Ht). unfold h_leaf.
+  destruct (h_alloc_good zh s (CLeaf c) Hi) as (Hi' & Hg & Hv); [discriminate|].
+  unfold good. split; [split; [exact Hi'|split]|split; [exact Hg|]].
+  - rewrite h_alloc_next. lia.
+  - destruct Hg as [[A _] _]. now apply A.
+  - eapply fresh_leaf; [apply h_alloc_new|exact Hv].
+Qed.
+
+Lemma pair_alloc_k s l r :
+  h_inv_k s -> fresh_unset s l -> fresh_unset s r ->
+  good addr heap h_inv_k fresh_unset heap_grow s (h_pair s l r).
+Proof.
+  intros Hik Hl Hr. pose proof Hik as (Hi & Hk & Ht). rewrite h_pair_eq.
+  destruct (h_alloc_good zh s (CPair zero_chunk l r) Hi) as (Hi' & Hg & Hv).
+  { intros m l0 r0 E. injection E as <- <- <-. split; [reflexivity|]. split; [apply Hl|apply Hr]. }
+  unfold good. cbn [fst snd].
+  split; [split; [exact Hi'|split]|split; [exact Hg|]].
+  - rewrite h_alloc_next. lia.
+  - destruct Hg as [[A _] _]. now apply A.
+  - pose proof (fresh_mono _ _ _ Hik Hg Hl) as [_ Fl]. pose proof (fresh_mono _ _ _ Hik Hg Hr) as [_ Fr].
+    split; [exact Hv|]. intros b Hb Hu.
+    inversion Hb as [a0|a0 m l0 r0 b0 Hc0 Hb0|a0 m l0 r0 b0 Hc0 Hb0]; subst.
+    + exact Hk.
+    + rewrite h_alloc_new in Hc0. injection Hc0 as _ <- <-. now apply Fl.
+    + rewrite h_alloc_new in Hc0. injection Hc0 as _ <- <-. now apply Fr.
+Qed.
+
+Lemma h_set_path_fresh p : forall h a e v r,
+  h_inv_k h -> fresh_unset h a -> fresh_unset h v ->
+  h_set_path zh h a p e v = OK r -> good addr heap h_inv_k fresh_unset heap_grow h r.
+Proof.
+  induction p as [|b p IH]; intros h a e v r Hik Ha Hv Hs.
+  - simpl in Hs. injection Hs as <-. split; [exact Hik|]. split; [apply heap_grow_refl|exact Hv].
+  - rewrite h_set_path_cons in Hs. pose proof Hik as ((Hwf & Hz & _) & _ & _).
+    destruct (h_step_children zh h a (length p) e) as [[l r0]| |] eqn:Est; cbn [bind] in Hs;
+      try discriminate.
+    assert (Hlr : fresh_unset h l /\ fresh_unset h r0).
+    { unfold h_step_children in Est. destruct (h_cell h a) as [[c|memo l0 r1]|] eqn:Hc; try discriminate.
+      - destruct e; [|discriminate]. destruct (chunk_eqb c (zh (S (length p)))); [|discriminate].
+        destruct (N.of_nat (length p) <=? 64) eqn:Ek; [|discriminate]. apply N.leb_le in Ek.
+        injection Est as <- <-.
+        assert (Hzc : h_cell h (zero_addr (length p)) = Some (CLeaf (zh (length p)))) by (apply Hz; lia).
+        pose proof (fresh_leaf _ _ _ Hzc (heap_wf_lt _ _ _ Hwf Hzc)). auto.
+      - injection Est as <- <-. exact (fresh_child _ _ _ _ _ Hwf Ha Hc). }
+    destruct Hlr as [Fl Fr].
+    destruct b.
+    + destruct (h_set_path zh h r0 p e v) as [[r' h1]| |] eqn:Er; cbn [bind] in Hs; try discriminate.
+      destruct (IH _ _ _ _ _ Hik Fr Hv Er) as (Hik1 & Hg1 & Fr'). simpl in *.
+      injection Hs as <-. eapply good_trans; [apply heap_grow_trans|exact Hg1|].
+      apply pair_alloc_k; [exact Hik1|exact (fresh_mono _ _ _ Hik Hg1 Fl)|exact Fr'].
+    + destruct (h_set_path zh h l p e v) as [[l' h1]| |] eqn:El; cbn [bind] in Hs; try discriminate.
+      destruct (IH _ _ _ _ _ Hik Fl Hv El) as (Hik1 & Hg1 & Fl'). simpl in *.
+      injection Hs as <-. eapply good_trans; [apply heap_grow_trans|exact Hg1|].
+      apply pair_alloc_k; [exact Hik1|exact Fl'|exact (fresh_mono _ _ _ Hik Hg1 Fr)].
+Qed.
+
+Lemma hm_step_fresh st o :
+  SInv addr heap h_inv_k fresh_unset st ->
+  SInv addr heap h_inv_k fresh_unset (fst (hm_step zh st o)).
+Proof.
+  intros HS. destruct (hm_step zh st o) as [st' r] eqn:E. unfold hm_step in E. simpl.
+  eapply (step_inv addr heap h_getter (h_setter zh) h_leaf h_pair h_chunk zero_addr true_addr zh
+            h_inv_k fresh_unset heap_grow); try eassumption.
+  - apply heap_grow_refl.
+  - apply heap_grow_trans.
+  - intros s s' t Hi _ Hg Hf. eapply fresh_mono; eauto.
+  - apply leaf_alloc_k.
+  - apply pair_alloc_k.
+  - intros s a g e v r0. unfold h_setter. apply h_set_path_fresh.
+  - intros s a g t ((Hwf & _) & _) [Ha Hf] Hg. unfold h_getter in Hg. split.
+    + eapply h_get_path_lt; eauto.
+    + intros b Hb Hu. apply Hf; [|exact Hu]. eapply reach_trans; [eapply h_get_path_reach; eauto|exact Hb].
+  - intros s ((Hwf & Hz & _) & _).
+    assert (Hzc : h_cell s (zero_addr 0) = Some (CLeaf (zh 0))) by (apply Hz; lia).
+    eapply fresh_leaf; [exact Hzc|eapply heap_wf_lt; eauto].
+  - intros s ((_ & _ & Ht) & _ & Hc). eapply fresh_leaf; eauto.
+Qed.
+
+End StepCost.
+
+Lemma addr_range_in (k0 n1 b : positive) :
+  (k0 <= b)%positive -> (b < n1)%positive ->
+  In b (map Pos.of_nat (seq (Pos.to_nat k0) (Pos.to_nat n1 - Pos.to_nat k0))).
+Proof.
+  intros H1 H2. apply in_map_iff. exists (Pos.to_nat b). split; [apply Pos2Nat.id|].
+  apply in_seq. lia.
+Qed.
+
+Section StepCost2.
+Variable H : chunk -> chunk -> chunk.
+Variable zh : nat -> chunk.
+
+(* from a state in which every handle is fully hashed, after ANY step a hash request on ANY
+   handle performs at most one hash per cell the step allocated *)
+Lemma hm_step_hash_cost st o j r st2 c :
+  Hnz H -> hm_inv zh st -> h_cell (m_store _ _ st) true_addr = Some (CLeaf true_chunk) ->
+  (forall k x, nth_error (m_handles _ _ st) k = Some x -> memoised (m_store _ _ st) (h_back _ x)) ->
+  hm_hash H (fst (hm_step zh st o)) j = OK (r, st2, c) ->
+  c <= N.of_nat (Pos.to_nat (hp_next (m_store _ _ (fst (hm_step zh st o)))) -
+                 Pos.to_nat (hp_next (m_store _ _ st))).
+Proof.
+  intros Hz Hi Ht Hm Eh. set (k0 := hp_next (m_store _ _ st)).
+  assert (HS : SInv addr heap (h_inv_k zh k0) (fresh_unset k0) st).
+  { pose proof Hi as (Hwf & Hzo & Htr & Hv). split.
+    - split; [split; [exact Hwf|split; [exact Hzo|exact Htr]]|]. split; [unfold k0; lia|exact Ht].
+    - intros k x Hx. split; [eapply Hv; eauto|]. intros b Hb Hu.
+      exfalso. eapply memoised_reach_set; eauto. }
+  pose proof (hm_step_fresh zh k0 st o HS) as [_ HV].
+  destruct (hm_step_inv' zh st o Hi) as [Hi' _].
+  set (st' := fst (hm_step zh st o)) in *.
+  unfold hm_hash in Eh. destruct (nth_error (m_handles _ _ st') j) as [y|] eqn:Hy; [|discriminate].
+  destruct (h_merkle H _ (m_store _ _ st') _) as [[[r0 h0] c0]| |] eqn:Em; try discriminate.
+  injection Eh as _ _ <-. destruct (HV _ _ Hy) as [Hyl Hf].
+  pose proof (h_merkle_count_distinct H _ _ _ _ _ _
+                (map Pos.of_nat (seq (Pos.to_nat k0) (Pos.to_nat (hp_next (m_store _ _ st')) - Pos.to_nat k0)))
+                Hz (proj1 Hi') Hyl (le_n _) Em) as Hc.
+  rewrite map_length, seq_length in Hc. apply Hc.
+  intros b Hb Hu. apply addr_range_in; [now apply Hf|].
+  destruct Hu as (l & r1 & Hcb). eapply heap_wf_lt; [apply Hi'|exact Hcb].
+Qed.
+
+End StepCost2.
+
+(* the bound is met by the example history: the write through the sub-view allocates a new
+   leaf, one pair in the vector (path length 1) and one pair in the container (hook, path
+   length 1): 3 cells, 2 hashes *)
+Example ex_step_cost :
+  let st := hm_run yH yzh ex_st0 [EHash 0; EStep (OGet 0 0)] in
+  let o := OSet 1 5 (SLit (TUint 8) (VUint 7)) in
+  (Pos.to_nat (hp_next (m_store _ _ (fst (hm_step yzh st o)))) - Pos.to_nat (hp_next (m_store _ _ st)) = 3)%nat /\
+  match hm_hash yH (fst (hm_step yzh st o)) 0 with OK (_, _, c) => c = 2 | _ => False end.
+Proof. split; vm_compute; reflexivity. Qed.
+
+(* Why [memo_closed] is a premise of "a request leaves the tree fully hashed" (h_merkle_memoised):
+   in an arbitrary well-formed heap a pair may hold a memo although one of its children does
+   not; MerkleRoot then returns that memo at once and the child stays unhashed.  Such a heap
+   is not reachable by the machine (memo_closed and memo_ok are invariants), but it is
+   well-formed: cell 67 = unset pair (zero, zero), cell 68 = pair (67, zero) with a memo. *)
+Definition ex_open_heap : heap :=
+  h_put (snd (h_pair (snd (h_pair (heap_init yzh) 1%positive 1%positive)) 67%positive 1%positive))
+        68%positive (CPair (yzh 1) 67%positive 1%positive).
+
+Example ex_memo_closed_needed :
+  heap_wf ex_open_heap /\
+  h_merkle yH 68 ex_open_heap 68%positive = OK (yzh 1, ex_open_heap, 0) /\
+  ~ memoised ex_open_heap 68%positive /\ ~ memo_closed ex_open_heap.
+Proof.
+  set (h1 := snd (h_pair (heap_init yzh) 1%positive 1%positive)).
+  set (h2 := snd (h_pair h1 67%positive 1%positive)).
+  assert (W1 : heap_wf h1).
+  { unfold h1. rewrite h_pair_eq. apply h_alloc_wf; [apply heap_init_wf|].
+    intros m l r E. injection E as _ <- <-. split; vm_compute; reflexivity. }
+  assert (W2 : heap_wf h2).
+  { unfold h2. rewrite h_pair_eq. apply h_alloc_wf; [exact W1|].
+    intros m l r E. injection E as _ <- <-. split; vm_compute; reflexivity. }
+  assert (C2 : h_cell h2 68%positive = Some (CPair zero_chunk 67%positive 1%positive))
+    by (vm_compute; reflexivity).
+  destruct (h_put_memo h2 68%positive zero_chunk 67%positive 1%positive (yzh 1) C2 (or_introl eq_refl))
+    as [He Hd].
+  assert (Hnm : ~ memoised ex_open_heap 68%positive).
+  { intros Hm. inversion Hm as [a c Hc|a m l r Hc Hz Hl Hr]; subst.
+    - vm_compute in Hc. discriminate.
+    - assert (El : l = 67%positive) by (vm_compute in Hc; congruence). subst l.
+      inversion Hl as [a c Hc'|a m' l' r' Hc' Hz' _ _]; subst.
+      + vm_compute in Hc'. discriminate.
+      + apply Hz'. vm_compute in Hc'. injection Hc' as <- _ _. reflexivity. }
+  split; [exact (heap_wf_ext_memo _ _ W2 He Hd)|]. split; [vm_compute; reflexivity|].
+  split; [exact Hnm|].
+  intros Hcl. apply Hnm.
+  assert (Hc : h_cell ex_open_heap 68%positive = Some (CPair (yzh 1) 67%positive 1%positive))
+    by (vm_compute; reflexivity).
+  assert (Hz : yzh 1 <> zero_chunk) by apply ex_Hnz.
+  destruct (Hcl _ _ _ _ Hc Hz) as [Hl Hr]. eapply memoised_pair; eauto.
+Qed.
+
+(* the hypotheses of [hm_step_hash_cost] hold in the state of [ex_step_cost] *)
+Ltac memo_tac :=
+  first [ eapply memoised_leaf; vm_compute; reflexivity
+        | eapply memoised_pair; [vm_compute; reflexivity|vm_compute; discriminate|memo_tac|memo_tac] ].
+
+Example ex_step_cost_hyps :
+  let st := hm_run yH yzh ex_st0 [EHash 0; EStep (OGet 0 0)] in
+  hm_inv yzh st /\ h_cell (m_store _ _ st) true_addr = Some (CLeaf true_chunk) /\
+  length (m_handles _ _ st) = 2%nat /\
+  (forall k x, nth_error (m_handles _ _ st) k = Some x -> memoised (m_store _ _ st) (h_back _ x)).
+Proof.
+  cbv zeta. split; [|split; [|split]].
+  - apply (hm_run_inv yH yzh _ ex_st0 (proj1 ex_st0_ok)).
+  - vm_compute. reflexivity.
+  - vm_compute. reflexivity.
+  - intros k x Hx.
+    assert (E : m_handles _ _ (hm_run yH yzh ex_st0 [EHash 0; EStep (OGet 0 0)]) =
+                [mkH _ ex_ty 71%positive None; mkH _ (TVector (TUint 8) 8) 69%positive (Some (0%nat, 0))])
+      by (vm_compute; reflexivity).
+    rewrite E in Hx. destruct k as [|[|k]]; simpl in Hx.
+    + injection Hx as <-. simpl h_back. memo_tac.
+    + injection Hx as <-. simpl h_back. memo_tac.
+    + destruct k; discriminate.
 Qed.
